@@ -57,7 +57,7 @@ def floors(tier):
             "cls:full_binding_history": 50, "cls:partial_binding_history": 500, "cls:overwrite": 100, "cls:clear": 100,
             "cls:extra_nonkey_entries": 100, "cls:values_shared_between_keys": 500, "cls:falsy_and_repeated_outputs": 300,
             "cls:raw_values_incl_None": 300, "cls:keys_and_bindings_spelled_in_reverse_order": 300,
-            "cls:callers_dict_changed_after_insert": 200, "cls:lookups_left_after_their_first_match": 200}
+            "cls:callers_dict_changed_after_insert": 200, "cls:lookups_left_after_their_first_match": 200, "cls:driven_while_the_caching_switch_is_off": 150}
 
 
 def _bindings(nkeys, alpha=2):
@@ -78,7 +78,8 @@ def cases(spec, ctx):
                     yield {"k": "exh", "nkeys": spec["nkeys"], "alpha": 2, "ops": [["ins", bs[j]] for j in seq], "lookups": "all",
                            "only_last": True, "shared_values": i % 2 == 1, "plain_outputs": i % 3 == 2,
                            "raw_values": i % 5 == 4, "unsorted_spelling": i % 4 == 3,
-                           "caller_keeps_using_its_dict": i % 6 == 5, "abandoned_lookups": i % 7 == 6}
+                           "caller_keeps_using_its_dict": i % 6 == 5, "abandoned_lookups": i % 7 == 6,
+                           "caching_switch_off": i % 9 == 8}
                 i += 1
         return
     for i in range(spec["n"]):
@@ -107,7 +108,8 @@ def cases(spec, ctx):
         yield {"k": "rand", "nkeys": nkeys, "alpha": alpha, "ops": ops, "lookups": lookups, "only_last": False,
                "shared_values": rng.random() < 0.5, "plain_outputs": rng.random() < 0.4,
                "raw_values": rng.random() < 0.15, "unsorted_spelling": rng.random() < 0.3,
-               "caller_keeps_using_its_dict": rng.random() < 0.2, "abandoned_lookups": rng.random() < 0.2}
+               "caller_keeps_using_its_dict": rng.random() < 0.2, "abandoned_lookups": rng.random() < 0.2,
+               "caching_switch_off": rng.random() < 0.15}
 
 
 # ------------------------------------------------------------------------------------------------ models
@@ -214,6 +216,12 @@ def check_case(case, ctx):
     if case.get("abandoned_lookups"):
         ctx.cls("cls:lookups_left_after_their_first_match")
     known_seen = 0
+    if case.get("caching_switch_off"):
+        # the index is a data structure of its own (the instance registry is one too): the operators' caching switch is not its
+        # business
+        from entity_query_language.cache_data import disable_caching
+        disable_caching()
+        ctx.cls("cls:driven_while_the_caching_switch_is_off")
     for step, op in enumerate(case["ops"]):
         if op[0] == "clear":
             cache.clear()
